@@ -50,6 +50,7 @@ type scenario struct {
 	HostActive bool
 	Device     uint16
 	Retry      int
+	Coalesce   int // 0 every write is its own segment; 1 writes join a segment still in flight; 2 per write
 	T1, T2, T4 time.Duration
 	Senders    [2]int
 	PerSender  int
@@ -132,6 +133,7 @@ func genScenario(t *core.Tape, faulty bool) scenario {
 	sc.T4 = []time.Duration{20 * time.Second, time.Second, 400 * time.Millisecond}[t.Choose("scn", 3)]
 	sc.Senders = [2]int{1 + t.Choose("scn", 3), 1 + t.Choose("scn", 3)}
 	sc.PerSender = 1 + t.Choose("scn", 5)
+	sc.Coalesce = t.Weighted("scn", 2, 1, 1)
 	if faulty {
 		sc.FaultRate = []int{6, 12, 25}[t.Choose("scn", 3)]
 		sc.FaultsFor = time.Duration(1+t.Choose("scn", 6)) * time.Second
@@ -171,6 +173,19 @@ func Build(config string) core.BuildFunc {
 		}
 		h.n.Mangle = h.mangle
 		h.n.Seg = h.seg
+		if sc.Coalesce != 0 {
+			// TCP coalescing: a write made while the previous one is still in flight may reach the reader
+			// in the same read (an ACK and the ENQ that follows it, a block and the next ENQ)
+			h.n.Coalesce = func(*simnet.Pipe) bool {
+				if sc.Coalesce == 1 || w.T.Choose("net", 2) == 1 {
+					w.Probe("writes_coalesced_into_one_segment")
+
+					return true
+				}
+
+				return false
+			}
+		}
 		// the passive end first, then the active one
 		passive, activeSide := 1, 0
 		if !sc.HostActive {
@@ -202,7 +217,7 @@ func Build(config string) core.BuildFunc {
 func (h *harness) describe() map[string]any {
 	sc := h.sc
 
-	return map[string]any{"hostActive": sc.HostActive, "device": sc.Device, "retryLimit": sc.Retry, "T1": sc.T1.String(), "T2": sc.T2.String(), "T4": sc.T4.String(), "sendersHost": sc.Senders[0], "sendersEquip": sc.Senders[1],
+	return map[string]any{"hostActive": sc.HostActive, "device": sc.Device, "retryLimit": sc.Retry, "coalesce": sc.Coalesce, "T1": sc.T1.String(), "T2": sc.T2.String(), "T4": sc.T4.String(), "sendersHost": sc.Senders[0], "sendersEquip": sc.Senders[1],
 		"sendsEach": sc.PerSender, "faultRate": sc.FaultRate, "contentionBias": sc.Bias, "faultsFor": sc.FaultsFor.String()}
 }
 
